@@ -5,10 +5,10 @@ out at the /repo commit the seed was written against (meta.json base_commit); th
 a separate fact cache, so /repo itself is never touched.  Usage: seed_rerun.py [seed ids...]"""
 import json, os, re, subprocess, sys, glob
 HERE = os.path.dirname(os.path.dirname(os.path.abspath(__file__)))
-W = '/tmp/seeds/rerun_wt'
+W = os.environ.get('SEED_WT', '/tmp/seeds/rerun_wt')
 seeds = sorted(glob.glob(os.path.join(HERE, 'seeded', '*', 'patch.diff')))
 only = set(sys.argv[1:])
-os.makedirs('/tmp/seeds/evid', exist_ok=True)
+os.makedirs('/tmp/seeds/evid', exist_ok=True); os.makedirs('/tmp/seeds/evid_' + os.path.basename(W), exist_ok=True)
 if not os.path.isdir(W):
     subprocess.check_call(['git', '-C', '/repo', 'worktree', 'add', '--detach', W, 'HEAD'], stdout=subprocess.DEVNULL, stderr=subprocess.DEVNULL)
 head = subprocess.check_output(['git', '-C', '/repo', 'rev-parse', '--short', 'HEAD'], text=True).strip()
@@ -19,8 +19,8 @@ OWN_ONLY = os.environ.get('SEED_OWN_ONLY') == '1'      # only the check of the p
 
 
 def run(tag, pids=()):
-    out = '/tmp/seeds/evid/runall_%s.json' % tag
-    env = dict(os.environ, VERIF_EVID_DIR='/tmp/seeds/evid', SVT_REPO=W, SVT_CACHE='/tmp/seeds/cache_rerun', VERIF_RUNALL_JSON=out)
+    out = '/tmp/seeds/evid/runall_%s_%s.json' % (os.path.basename(W), tag)
+    env = dict(os.environ, VERIF_EVID_DIR='/tmp/seeds/evid_' + os.path.basename(W), SVT_REPO=W, SVT_CACHE=os.environ.get('SEED_CACHE', '/tmp/seeds/cache_rerun'), VERIF_RUNALL_JSON=out)
     subprocess.run([sys.executable, os.path.join(HERE, 'tools', 'runall.py')] + list(pids), capture_output=True, text=True, env=env)
     return json.load(open(out))
 
